@@ -536,14 +536,22 @@ func (g *G) expr(t Ty, depth int) ref.Expr {
 			return &ref.Tern{C: g.Expr(TBool, depth-1), A: g.Expr(TBool, depth-1), B: g.Expr(TBool, depth-1)}
 		}
 	case "list":
-		if t.Elem.K == "int" && g.R.P(1, 3) {
-			switch g.R.Intn(3) {
+		if t.Elem.K == "int" && g.R.P(1, 2) {
+			switch g.R.Intn(5) {
 			case 0:
 				return &ref.Call{Fn: "range", Args: []ref.Expr{lit(ref.Int(int64(2 + g.R.Intn(3))))}}
 			case 1:
 				return &ref.Call{Fn: "range", Args: []ref.Expr{lit(ref.Int(int64(g.R.Intn(3)))), lit(ref.Int(int64(4 + g.R.Intn(3))))}}
-			default:
+			case 2:
 				return &ref.Call{Fn: "range", Args: []ref.Expr{lit(ref.Int(0)), lit(ref.Int(int64(6 + g.R.Intn(3)))), lit(ref.Int(int64(1 + g.R.Intn(3))))}}
+			case 3:
+				// bounds in any order and of any sign: empty when the limit is not above the start
+				return &ref.Call{Fn: "range", Args: []ref.Expr{lit(ref.Int(int64(g.R.Intn(13) - 4))), lit(ref.Int(int64(g.R.Intn(13) - 4)))}}
+			default:
+				if g.R.Bool() {
+					return &ref.Call{Fn: "range", Args: []ref.Expr{lit(ref.Int(int64(g.R.Intn(10) - 5)))}}
+				}
+				return &ref.Call{Fn: "range", Args: []ref.Expr{lit(ref.Int(int64(g.R.Intn(13) - 4))), lit(ref.Int(int64(g.R.Intn(13) - 4))), lit(ref.Int(int64(1 + g.R.Intn(4))))}}
 			}
 		}
 		l := &ref.ListLit{}
